@@ -262,7 +262,8 @@ func (r *Reconciler) reconcileValidate(ctx context.Context, proposal *configapi.
 		case *configapi.Proposal_Change:
 			rollbackIndex = config.Index
 			rollbackValues = make(map[string]*configapi.PathValue)
-			for path, changeValue := range details.Change.Values {
+			for _, path := range deletesFirst(details.Change.Values) {
+				changeValue := details.Change.Values[path]
 				deletedParentPath, deletedParentValue := applyChangeToConfig(changeValues, path, changeValue)
 				if deletedParentValue != nil {
 					rollbackValues[deletedParentPath] = deletedParentValue
@@ -466,8 +467,8 @@ func (r *Reconciler) reconcileCommit(ctx context.Context, proposal *configapi.Pr
 				config.Values = make(map[string]*configapi.PathValue)
 			}
 			updatedChangeValues := controllerutils.AddDeleteChildren(proposal.TransactionIndex, changeValues, config.Values)
-			for path, updatedChangeValue := range updatedChangeValues {
-				_, _ = applyChangeToConfig(config.Values, path, updatedChangeValue)
+			for _, path := range deletesFirst(updatedChangeValues) {
+				_, _ = applyChangeToConfig(config.Values, path, updatedChangeValues[path])
 			}
 			config.Status.Committed.Index = proposal.TransactionIndex
 			err = r.configurations.Update(ctx, config)
@@ -496,20 +497,39 @@ func (r *Reconciler) reconcileCommit(ctx context.Context, proposal *configapi.Pr
 	}
 }
 
+// deletesFirst returns the paths of a change with the deleted ones first: the deletes of a request take effect before its
+// updates, whatever the iteration order of the map, so a value written beneath a path deleted by the same change stays.
+func deletesFirst(changeValues map[string]*configapi.PathValue) []string {
+	paths := make([]string, 0, len(changeValues))
+	for path, changeValue := range changeValues {
+		if changeValue.Deleted {
+			paths = append(paths, path)
+		}
+	}
+	for path, changeValue := range changeValues {
+		if !changeValue.Deleted {
+			paths = append(paths, path)
+		}
+	}
+	return paths
+}
+
 func applyChangeToConfig(values map[string]*configapi.PathValue, path string, value *configapi.PathValue) (string, *configapi.PathValue) {
 	values[path] = value
 
 	// Walk up the path and make sure that there are no parents marked as deleted in the given map, if so, remove them
+	// all (a deleted container may lie within another one) and return the path and value of the top-most one
+	var deletedPath string
+	var deletedValue *configapi.PathValue
 	parent := pathutils.GetParentPath(path)
 	for parent != "" {
 		if v := values[parent]; v != nil && v.Deleted {
-			// Delete the parent marked as deleted and return its path and value
 			delete(values, parent)
-			return parent, v
+			deletedPath, deletedValue = parent, v
 		}
 		parent = pathutils.GetParentPath(parent)
 	}
-	return "", nil
+	return deletedPath, deletedValue
 }
 
 func (r *Reconciler) reconcileApply(ctx context.Context, proposal *configapi.Proposal) (controller.Result, error) {
@@ -746,9 +766,9 @@ func (r *Reconciler) reconcileApply(ctx context.Context, proposal *configapi.Pro
 		if config.Status.Applied.Values == nil {
 			config.Status.Applied.Values = make(map[string]*configapi.PathValue)
 		}
-		for path, changeValue := range updatedChangeValues {
+		for _, path := range deletesFirst(updatedChangeValues) {
 			// as for the committed values: a value written beneath a deleted ancestor replaces that tombstone
-			_, _ = applyChangeToConfig(config.Status.Applied.Values, path, changeValue)
+			_, _ = applyChangeToConfig(config.Status.Applied.Values, path, updatedChangeValues[path])
 		}
 
 		if err := r.configurations.UpdateStatus(ctx, config); err != nil {
